@@ -206,3 +206,10 @@ Proof.
   - apply element_spec in Ee. destruct Ee as [-> _]. intros H. inversion H; subst. repeat split.
   - apply element_none in Ee. lia.
 Qed.
+
+(* the children of a struct pointer: what Struct.Ptr(i) returns denotes the i-th pointer value *)
+Definition kids_of (m : segs) (mid : Z) (caps : list Z) (p : Ptr) (vs : list value) : Prop :=
+  forall i, 0 <= i < PointerCount (p_size p) ->
+    exists dep rl q rl',
+      readPtr true m rl (p_seg p) (seg_of m p) (pointerAddress p i) dep = (Ok q, rl')
+      /\ den true m mid caps q (nthv vs i).
